@@ -147,24 +147,60 @@ int prop_vptr(Run& run) {
         gen_presentation(rng, r2, o, (int)rng.below(NPRES));
         r2.static_class[0] = (int)rng.below(r2.n);
         r2.static_class[1] = (int)rng.below(r2.n);
-        // phase 1 registry: some methods / definitions not registered yet
+        // phase 1 registry: some classes (closed under derivation), methods and definitions
+        // are not registered yet - as before a shared library is loaded
         Registry r1 = r2;
-        bool differs = false;
+        std::vector<char> late(r2.n, 0);
+        for (int k = 0; k < r2.n; ++k)
+            if (rng.chance(1, 4) && k != r2.static_class[0] && k != r2.static_class[1])
+                for (int d = 0; d < r2.n; ++d)
+                    if (o.derives(d, k) && d != r2.static_class[0] && d != r2.static_class[1])
+                        late[d] = 1;
+        // a late class may not have a registered class deriving from it
+        for (int k = 0; k < r2.n; ++k)
+            if (late[k])
+                for (int d = 0; d < r2.n; ++d)
+                    if (o.derives(d, k) && !late[d])
+                        late[k] = 0;
+        for (int it = 0; it < r2.n; ++it)
+            for (int k = 0; k < r2.n; ++k)
+                if (late[k])
+                    for (int d = 0; d < r2.n; ++d)
+                        if (o.derives(d, k) && !late[d])
+                            late[k] = 0;
+        for (int k = 0; k < r2.n; ++k)
+            if (late[k])
+                r1.abstract_[k] = 1; // no object of an unregistered class is ever passed
+        auto mentions_late = [&](const std::vector<int>& v) {
+            for (int x : v)
+                if (late[x])
+                    return true;
+            return false;
+        };
         for (size_t m = 0; m < r1.methods.size(); ++m) {
-            if (m > 0 && rng.chance(1, 2)) {
+            if (mentions_late(r1.methods[m].vp) || (m > 0 && rng.chance(1, 2)))
                 r1.methods[m].attached = false;
-                differs = true;
-            }
             for (size_t d = 0; d < r1.methods[m].defs.size(); ++d)
-                if (rng.chance(1, 3)) {
+                if (mentions_late(r1.methods[m].defs[d].vp) || rng.chance(1, 3))
                     r1.methods[m].def_live[d] = false;
-                    differs = differs || r1.methods[m].attached;
-                }
         }
         set_current_case(run, w->name(), dump_registry(r1));
         if (rng.chance(3, 4))
             w->hard_reset();
-        w->materialize(r1);
+        else
+            w->soft_reset();
+        w->bind(r2);
+        w->make_objects(r2);
+        for (size_t k = 0; k < r2.records.size(); ++k)
+            if (!late[r2.records[k].cls])
+                w->add_record(r2, (int)k);
+        for (int m : r2.method_order)
+            if (r1.methods[m].attached) {
+                w->attach_method(r2, m);
+                for (int d : r2.methods[m].def_order)
+                    if (r1.methods[m].def_live[d])
+                        w->add_def(r2, m, d);
+            }
         CaseCtx c1{run, *w, r1, o, rng, "before the later update"};
         UpdateResult u;
         if (!do_update(c1, u, "C09"))
@@ -177,25 +213,32 @@ int prop_vptr(Run& run) {
             if (ho.kind != Outcome::RAN) {
                 stop = run.violation("C09:construction-error:hold", witness_json(c1, "creating one virtual_ptr per class", "", "constructed", ho.str()));
             } else {
-                // later update: register the rest (forces new slots and a reallocated dispatch_data)
-                for (size_t m = 0; m < r2.methods.size(); ++m) {
+                // later update: register the rest (new classes change the hash, new methods the
+                // slots; dispatch_data and the v-table pointer vector are reallocated)
+                for (size_t k = 0; k < r2.records.size(); ++k)
+                    if (late[r2.records[k].cls])
+                        w->add_record(r2, (int)k);
+                for (int m : r2.method_order) {
                     if (!r1.methods[m].attached)
-                        w->attach_method(r2, (int)m);
-                    for (size_t d = 0; d < r2.methods[m].defs.size(); ++d)
-                        if (!r1.methods[m].attached || !r1.methods[m].def_live[d]) {
-                            if (!r1.methods[m].attached && r1.methods[m].def_live[d])
-                                w->add_def(r2, (int)m, (int)d); // was never materialised
-                            else if (!r1.methods[m].def_live[d])
-                                w->add_def(r2, (int)m, (int)d);
-                        }
+                        w->attach_method(r2, m);
+                    for (int d : r2.methods[m].def_order)
+                        if (!r1.methods[m].attached || !r1.methods[m].def_live[d])
+                            w->add_def(r2, m, d);
                 }
+                for (int k = 0; k < r2.n; ++k)
+                    if (late[k])
+                        run.count("late-classes");
                 set_current_case(run, w->name(), dump_registry(r2));
                 CaseCtx c2{run, *w, r2, o, rng, "after a later update that registered more methods and definitions"};
                 UpdateResult u2;
                 if (do_update(c2, u2, "C09")) {
                     if (w->caps().indirect) {
                         // pointers created before the update remain valid
-                        stop = route_calls(c2, {RT_HELD}, "indirect-kept-across-update");
+                        // (only classes that had a pointer before the update are passed)
+                        Registry r2h = r2;
+                        r2h.abstract_ = r1.abstract_;
+                        CaseCtx c2h{run, *w, r2h, o, rng, c2.label};
+                        stop = route_calls(c2h, {RT_HELD}, "indirect-kept-across-update");
                         run.count("histories.indirect-kept");
                     } else {
                         // valid until the next update: re-create, then use
